@@ -462,8 +462,7 @@ def build():
     C.ext("EventNameTemplate.replace", model=lambda I, env, a, k: VStr(z3.String(I.fresh_name("tag_event"))),
           trusted_reason="str.replace on the switch tag event template")
     LOOPMODS = RELY_MODS + ["self.player", "self.player.ball"]
-    C.fn("Game._run", requires=[KNOWN],
-         loops={0: LoopSpec(
+    RUN_OUTER = LoopSpec(
              invariant=[("G2", "self.num_players == len(self.player_list) and self.num_players >= 1"),
                         ("G1", "0 <= self._balls_in_play <= self.machine.ball_controller.num_balls_known"),
                         ("G3", "implies(self.player is not None, 1 <= self.player.number <= self.num_players and "
@@ -474,8 +473,8 @@ def build():
                             "iteration_is_one_turn()"),
                            ("L2: the game ends after the turn iff it was slam-tilted or the last player finished "
                             "their last ball (or an end was requested); otherwise the next player is up",
-                            "implies(n_calls('_rotate_players') == 0, self.ending)")]),
-                1: LoopSpec(
+                            "implies(n_calls('_rotate_players') == 0, self.ending)")])
+    RUN_EXTRA = LoopSpec(
              invariant=[("a player is up", "self.player is not None"),
                         ("G3", "implies(self.player is not None, self.player.extra_balls >= 0 and "
                                "1 <= self.player.number <= self.num_players and self.player.ball >= 0)"),
@@ -484,7 +483,11 @@ def build():
              modifies=RELY_MODS,
              body_ensures=[("L3: an extra ball is only played while the game is not ending and not slam-tilted, and "
                             "consumes one of the player's extra balls",
-                            "extra_balls_only_while_not_ending() and n_calls('_award_extra_ball') == 1")])},
+                            "extra_balls_only_while_not_ending() and n_calls('_award_extra_ball') == 1")])
+    C.fn("Game._run", requires=[KNOWN],
+         loops={0: RUN_OUTER, 1: RUN_EXTRA},
+         # the same loop contracts by loop test, for when a clean-up moves a loop into a helper
+         loops_by_text={"self.player.extra_balls": RUN_EXTRA, "not self.ending": RUN_OUTER},
          ensures=[("the game ran to its end", "self.ending")],
          modifies=LOOPMODS + ["self.player_list", "self.machine.game", "self.tilted", "self.balls_per_game",
                               "self.max_players", "self._end_ball_event", "self._at_least_one_player_event",
